@@ -294,7 +294,7 @@ fn sweep_if<C: Suite, T: Wire<C>>(vals: &[T], ctx: &mut Ctx, k: &mut usize, want
         return;
     }
     let slow = C::NAME == "ed448";
-    let nvals = if ctx.quick() { 1 } else { 3 };
+    let nvals = if ctx.quick() { 1 } else { 8 };
     let mut p = ctx.pick("sweep");
     let log_every = if ctx.quick() { 150 } else { 2000 };
     for v in vals.iter().take(nvals) {
@@ -318,8 +318,8 @@ fn sweep_if<C: Suite, T: Wire<C>>(vals: &[T], ctx: &mut Ctx, k: &mut usize, want
     let nrand = match (ctx.quick(), slow) {
         (true, true) => 500,
         (true, false) => 2000,
-        (false, true) => 30_000,
-        (false, false) => 200_000,
+        (false, true) => 150_000,
+        (false, false) => 2_000_000,
     };
     for _ in 0..nrand {
         let m = p.bytes(len);
